@@ -65,12 +65,13 @@ func walShapes(thorough bool) []walShape {
 		{"rem=M", 8, M - 4, false},
 		{"rem=2M", 8, 2*M - 4, false},
 		{"del-rem=M", M - 13 + M, 0, true},
+		{"del-rec=", M - 13, 0, true}, // a delete that fills one record exactly (13 + key)
 	}
 	if thorough {
 		s = append(s,
 			walShape{"2rec=", 8, 2*M - 17 - 8 + M, false},
 			walShape{"key=first-frag+1", M - 12, 4, false},
-			walShape{"del-rec=", M - 13, 0, true},
+			walShape{"del-rec-3", M - 16, 0, true}, // would not fit if a value length were counted for deletes
 			walShape{"del-rec+1", M - 12, 0, true},
 			walShape{"rem=M-1", 8, M - 5, false},
 			walShape{"rem=M+1", 8, M - 3, false},
@@ -354,7 +355,7 @@ func init() {
 	fw.Register(&fw.Check{
 		ID:    "C09",
 		Level: "model_checking",
-		Rule: "all programs up to depth 3 (4 thorough) over the alphabet {append of 13 (20) key/value shapes on the record-format boundaries (payload 32767/32768/32769, 2 fragments+1, data behind the first fragment exactly 1x / 2x the fragment size for puts and a delete, key longer than the first fragment, fragmented delete, empty value), 7 (10) batches incl. totals 64KiB-1/64KiB/64KiB+1, an entry that fills a record exactly and entries too large by one byte / by far behind a small first entry (rejected: nothing of the batch may be in the log), rotate, reopen} with <=1 (2) rotate/reopen, under sync modes immediate and none; oracle: ReplayWALDir == appended list (type,key,value,seq) and GetEntriesFrom(s) for every s in [0,max+2]; non-trivial = programs with >=2 symbols",
+		Rule: "all programs up to depth 3 (4 thorough) over the alphabet {append of 14 (21) key/value shapes on the record-format boundaries (payload 32767/32768/32769, 2 fragments+1, data behind the first fragment exactly 1x / 2x the fragment size for puts and a delete, key longer than the first fragment, fragmented delete, empty value), 7 (10) batches incl. totals 64KiB-1/64KiB/64KiB+1, an entry that fills a record exactly and entries too large by one byte / by far behind a small first entry (rejected: nothing of the batch may be in the log), rotate, reopen} with <=1 (2) rotate/reopen, under sync modes immediate and none; oracle: ReplayWALDir == appended list (type,key,value,seq) and GetEntriesFrom(s) for every s in [0,max+2]; non-trivial = programs with >=2 symbols",
 		Assumptions: []string{"sequence hand-over at rotation is done by the harness as the engine is supposed to do it (UpdateNextSequence)", "file names come from the real clock; two files created in the same nanosecond are not modelled"},
 		Units: func(tier string) []string {
 			var us []string
